@@ -217,6 +217,14 @@ func run(line string) (res string) {
 	return "bad-op"
 }
 
+// opLimit: a single Scan/Parse op returns in microseconds; `conc` runs thousands of them (also under the race detector)
+func opLimit(line string) time.Duration {
+	if strings.HasPrefix(line, "conc ") {
+		return 300 * time.Second
+	}
+	return 2 * time.Second
+}
+
 func main() {
 	in := bufio.NewReaderSize(os.Stdin, 1<<20)
 	out := bufio.NewWriterSize(os.Stdout, 1<<20)
@@ -235,7 +243,7 @@ func main() {
 			select {
 			case r := <-done:
 				fmt.Fprintln(out, r)
-			case <-time.After(2 * time.Second):
+			case <-time.After(opLimit(line)):
 				fmt.Fprintln(out, "hang")
 				out.Flush()
 				os.Exit(3)
